@@ -100,3 +100,9 @@ package header
 //@ func NewBadFramingModifier
 //@ trusted
 //@ ensures result != nil
+
+// The package initialiser establishes the global invariants above (the
+// hop-by-hop list in particular).
+//@ func init
+//@ property C06 C01 C02 C18
+//@ modifies **
